@@ -384,7 +384,12 @@ fn typed_by_key(cx: &mut Ctx, r: &impl Resolve, id: u64, d: &Dictionary, p: &Pri
         cx.call(&format!("{}.extgstate", pfx), || GraphicsStateParameters::from_primitive(p2, r).map(|_| ()));
     } else if ty == "Annot" {
         let p2 = p.clone();
-        cx.call(&format!("{}.annot", pfx), || Annot::from_primitive(p2, r).map(|_| ()));
+        if let Some(a) = cx.call(&format!("{}.annot", pfx), || Annot::from_primitive(p2, r)) {
+            // the page the annotation names (/P): read something through the handle
+            if let Some(pg) = a.page.as_ref() {
+                cx.plain(&format!("{}.annot.page", pfx), || { let _ = (pg.media_box, pg.parent.count, pg.rotate, pg.other.len()); });
+            }
+        }
     } else if ty == "Encoding" {
         let p2 = p.clone();
         cx.call(&format!("{}.encoding", pfx), || pdf::encoding::Encoding::from_primitive(p2, r).map(|_| ()));
@@ -432,6 +437,12 @@ fn walk_page(cx: &mut Ctx, r: &impl Resolve, page: &PageRc, pfx: &str) {
         for (i, a) in annots.iter().take(32).enumerate() {
             let apfx = format!("{}.annot[{}]", pfx, i);
             cx.plain(&format!("{}.fields", apfx), || { let _ = (a.subtype.as_str().len(), a.rect, a.annot_flags, a.contents.as_ref().map(|s| s.to_string_lossy())); });
+            // the page the annotation names (/P): the handle is dereferenced (media box, parent, rotation read through it);
+            // `.own` is reported when it is the page the annotation was found on
+            if let Some(pg) = a.page.as_ref() {
+                cx.plain(&format!("{}.page", apfx), || { let _ = (pg.media_box, pg.parent.count, pg.rotate, pg.other.len()); });
+                if pg.get_ref().get_inner() == key { cx.plain(&format!("{}.page.own", apfx), || ()); }
+            }
             if let Some(ap) = a.appearance_streams.as_ref() {
                 for (k, e) in [("n", Some(ap.normal)), ("r", ap.rollover), ("d", ap.down)] {
                     if let Some(e) = e {
